@@ -1,4 +1,5 @@
 import SurfProofs.Lemmas.ProtoNumeric
+import SurfProofs.Lemmas.ProtoUtf8
 /-! C04, hex / key-value families: XTGETTCAP replies (success and failure form) and the kitty graphics
 response. For each: the printed message is in the grammar of its family and the payload decoder returns the
 denoted event. -/
@@ -269,93 +270,111 @@ theorem termcapFail_payload (names : List (List Nat)) (upper : Bool) (h : (Msg.t
 
 /-! ## kitty graphics response -/
 
-def kTail : Option Nat → List (List Nat × List Nat)
-  | some p => [([112], showNat p)]
+/-- an optional `key=number` field -/
+def kOpt (key : Nat) : Option Nat → List (List Nat × List Nat)
+  | some p => [([key], showNat p)]
   | none => []
 
-def kPairs (id : Nat) (placement : Option Nat) : List (List Nat × List Nat) :=
-  ([105], showNat id) :: kTail placement
+def kTail (number placement : Option Nat) : List (List Nat × List Nat) := kOpt 73 number ++ kOpt 112 placement
 
-def kHead (id : Nat) (placement : Option Nat) : List Nat :=
-  joinWith 44 ((kPairs id placement).map fun p => p.1 ++ 61 :: p.2)
+def kPairs (id : Nat) (number placement : Option Nat) : List (List Nat × List Nat) :=
+  ([105], showNat id) :: kTail number placement
+
+def kHead (id : Nat) (number placement : Option Nat) : List Nat :=
+  joinWith 44 ((kPairs id number placement).map fun p => p.1 ++ 61 :: p.2)
 
 def kMsg : Option (List Nat) → List Nat
   | some msg => msg
   | none => [79, 75]
 
-theorem kittyImage_print (id : Nat) (placement : Option Nat) (error : Option (List Nat)) :
-    print (.kittyImage id placement error) =
-      [27, 95, 71] ++ ((kHead id placement ++ 59 :: kMsg error) ++ [27, 92]) := by
-  cases placement <;> cases error <;> simp [print, kHead, kPairs, kTail, kMsg, joinWith, SurfModel.Protocol.ST]
+theorem kittyImage_print (id : Nat) (number placement : Option Nat) (error : Option (List Nat)) :
+    print (.kittyImage id number placement error) =
+      [27, 95, 71] ++ ((kHead id number placement ++ 59 :: kMsg error) ++ [27, 92]) := by
+  cases number <;> cases placement <;> cases error <;>
+    simp [print, kHead, kPairs, kTail, kOpt, kMsg, joinWith, SurfModel.Protocol.ST]
 
-theorem kHead_bytes (id : Nat) (placement : Option Nat) (b : Nat) (hb : b ∈ kHead id placement) :
-    b = 44 ∨ b = 61 ∨ b = 105 ∨ b = 112 ∨ (48 ≤ b ∧ b ≤ 57) := by
-  have hd := showNat_digits id b
-  cases placement with
+theorem kOpt_mem (key : Nat) (o : Option Nat) (p : List Nat × List Nat) (hp : p ∈ kOpt key o) :
+    ∃ n, p = ([key], showNat n) := by
+  cases o with
+  | none => simp [kOpt] at hp
+  | some n => simp only [kOpt, List.mem_cons, List.not_mem_nil, or_false] at hp; exact ⟨n, hp⟩
+
+theorem kTail_mem (number placement : Option Nat) (p : List Nat × List Nat) (hp : p ∈ kTail number placement) :
+    ∃ x n, p = ([x], showNat n) ∧ (x = 73 ∨ x = 112) := by
+  unfold kTail at hp
+  rcases List.mem_append.mp hp with hp | hp
+  · obtain ⟨n, rfl⟩ := kOpt_mem _ _ _ hp; exact ⟨73, n, rfl, Or.inl rfl⟩
+  · obtain ⟨n, rfl⟩ := kOpt_mem _ _ _ hp; exact ⟨112, n, rfl, Or.inr rfl⟩
+
+theorem kPairs_mem (id : Nat) (number placement : Option Nat) (p : List Nat × List Nat)
+    (hp : p ∈ kPairs id number placement) :
+    ∃ x n, p = ([x], showNat n) ∧ (x = 105 ∨ x = 73 ∨ x = 112) := by
+  unfold kPairs at hp
+  rcases List.mem_cons.mp hp with rfl | hp
+  · exact ⟨105, id, rfl, Or.inl rfl⟩
+  · obtain ⟨x, n, rfl, hx⟩ := kTail_mem _ _ _ hp
+    exact ⟨x, n, rfl, Or.inr hx⟩
+
+theorem kHead_bytes (id : Nat) (number placement : Option Nat) (b : Nat) (hb : b ∈ kHead id number placement) :
+    b = 44 ∨ b = 61 ∨ b = 105 ∨ b = 112 ∨ b = 73 ∨ (48 ≤ b ∧ b ≤ 57) := by
+  unfold kHead at hb
+  rcases joinWith_mem 44 _ b hb with h | ⟨c, hc, hbc⟩
+  · exact Or.inl h
+  · obtain ⟨p, hp, rfl⟩ := List.mem_map.mp hc
+    obtain ⟨x, n, rfl, hx⟩ := kPairs_mem _ _ _ _ hp
+    simp only [List.cons_append, List.nil_append, List.mem_cons] at hbc
+    rcases hbc with hbc | hbc | hbc
+    · omega
+    · omega
+    · have := showNat_digits n b hbc; omega
+
+theorem kittyFields_kPairs (id : Nat) (number placement : Option Nat) (h1 : id ≤ usizeMax)
+    (hn : ∀ n, number = some n → n ≤ usizeMax) (h2 : ∀ p, placement = some p → p ≤ usizeMax) :
+    kittyFields (kPairs id number placement) 0 none = some (id, placement) := by
+  cases number with
   | none =>
-    simp only [kHead, kPairs, kTail, List.map_cons, List.map_nil, joinWith, List.cons_append, List.nil_append,
-      List.mem_cons] at hb
-    rcases hb with hb | hb | hb
-    · omega
-    · omega
-    · have := hd hb; omega
-  | some p =>
-    have hp := showNat_digits p b
-    simp only [kHead, kPairs, kTail, List.map_cons, List.map_nil, joinWith, List.cons_append, List.nil_append,
-      List.mem_cons, List.mem_append] at hb
-    rcases hb with hb | hb | hb | hb | hb | hb | hb
-    · omega
-    · omega
-    · have := hd hb; omega
-    · omega
-    · omega
-    · omega
-    · have := hp hb; omega
+    cases placement with
+    | none => simp [kPairs, kTail, kOpt, kittyFields, numberDecode_showNat_small id h1]
+    | some p =>
+      simp [kPairs, kTail, kOpt, kittyFields, numberDecode_showNat_small id h1,
+        numberDecode_showNat_small p (h2 p rfl)]
+  | some n =>
+    cases placement with
+    | none => simp [kPairs, kTail, kOpt, kittyFields, numberDecode_showNat_small id h1]
+    | some p =>
+      simp [kPairs, kTail, kOpt, kittyFields, numberDecode_showNat_small id h1,
+        numberDecode_showNat_small p (h2 p rfl)]
 
-theorem kittyFields_kPairs (id : Nat) (placement : Option Nat) (h1 : id ≤ usizeMax)
-    (h2 : ∀ p, placement = some p → p ≤ usizeMax) :
-    kittyFields (kPairs id placement) 0 none = some (id, placement) := by
-  cases placement with
-  | none => simp [kPairs, kTail, kittyFields, numberDecode_showNat_small id h1]
-  | some p =>
-    simp [kPairs, kTail, kittyFields, numberDecode_showNat_small id h1, numberDecode_showNat_small p (h2 p rfl)]
-
-theorem kittyImage_payload (id : Nat) (placement : Option Nat) (error : Option (List Nat))
-    (h : (Msg.kittyImage id placement error).Valid) :
-    decode .kittyImage (print (.kittyImage id placement error)) =
-      .ok (some (denote (.kittyImage id placement error))) := by
-  obtain ⟨h1, h2, h3⟩ : id ≤ usizeMax ∧ (∀ p, placement = some p → p ≤ usizeMax) ∧
+theorem kittyImage_payload (id : Nat) (number placement : Option Nat) (error : Option (List Nat))
+    (h : (Msg.kittyImage id number placement error).Valid) :
+    decode .kittyImage (print (.kittyImage id number placement error)) =
+      .ok (some (denote (.kittyImage id number placement error))) := by
+  obtain ⟨h1, hn, h2, h3⟩ : id ≤ usizeMax ∧ (∀ n, number = some n → n ≤ usizeMax) ∧
+      (∀ p, placement = some p → p ≤ usizeMax) ∧
       ∀ msg, error = some msg → TextOk msg ∧ msg ≠ [79, 75] := h
-  have hs : slice? (print (.kittyImage id placement error)) 3 ((print (.kittyImage id placement error)).length - 2) =
-      .ok (kHead id placement ++ 59 :: kMsg error) := by
+  have hs : slice? (print (.kittyImage id number placement error)) 3
+      ((print (.kittyImage id number placement error)).length - 2) =
+      .ok (kHead id number placement ++ 59 :: kMsg error) := by
     rw [kittyImage_print]
     exact slice?_frame _ _ _ _ _ rfl (by simp; omega)
-  have h59 : 59 ∉ kHead id placement := fun hm => by
-    have := kHead_bytes id placement 59 hm; omega
-  have hkv : keyValueDecode 44 (kHead id placement) = kPairs id placement := by
+  have h59 : 59 ∉ kHead id number placement := fun hm => by
+    have := kHead_bytes id number placement 59 hm; omega
+  have hkv : keyValueDecode 44 (kHead id number placement) = kPairs id number placement := by
     unfold kHead
     apply keyValueDecode_joinWith 44 _ _ (by omega)
     intro p hp
     have hno : ∀ n, 44 ∉ showNat n := fun n hm => by have := showNat_digits n 44 hm; omega
-    cases placement with
-    | none =>
-      simp only [kPairs, kTail, List.mem_cons, List.not_mem_nil, or_false] at hp
-      subst hp
-      exact ⟨by simp, by simp, hno id⟩
-    | some q =>
-      simp only [kPairs, kTail, List.mem_cons, List.not_mem_nil, or_false] at hp
-      rcases hp with rfl | rfl
-      · exact ⟨by simp, by simp, hno id⟩
-      · exact ⟨by simp, by simp, hno q⟩
+    obtain ⟨x, n, rfl, hx⟩ := kPairs_mem _ _ _ _ hp
+    refine ⟨?_, ?_, hno n⟩ <;> simp <;> omega
   simp only [decode]
   unfold decodeKittyImage
   rw [sub?_ok _ _ (by rw [kittyImage_print]; simp)]
-  simp only [hs, splitn2_append_sep 59 _ _ h59, hkv, kittyFields_kPairs id placement h1 h2]
+  simp only [hs, splitn2_append_sep 59 _ _ h59, hkv, kittyFields_kPairs id number placement h1 hn h2]
   cases error with
   | none => simp [kMsg, denote]
   | some msg =>
     obtain ⟨ht, hne⟩ := h3 msg rfl
-    simp [kMsg, hne, denote, utf8Lossy_valid msg ht.1]
+    simp [kMsg, hne, denote, utf8Lossy_valid msg (SurfProofs.ProtoUtf8.textOk_facts msg ht).1]
 
 /-! ## grammars -/
 
@@ -485,35 +504,38 @@ theorem alnum_showNat (n : Nat) : (Re.plus alnum).Matches (bytes (showNat n)) :=
   have := showNat_digits n b hb
   exact ⟨by omega, (48, 57), by simp, by simpa using this⟩
 
-theorem alnum_letter (x : Nat) (h : 97 ≤ x ∧ x ≤ 122) : (Re.plus alnum).Matches (bytes [x]) :=
-  Re.Matches.plusOne (pred_matches _ x (by omega) ⟨(97, 122), by simp, by simpa using h⟩)
+theorem alnum_letter (x : Nat) (h : (97 ≤ x ∧ x ≤ 122) ∨ (65 ≤ x ∧ x ≤ 90)) : (Re.plus alnum).Matches (bytes [x]) := by
+  apply Re.Matches.plusOne
+  apply pred_matches _ x (by omega)
+  rcases h with h | h
+  · exact ⟨(97, 122), by simp, by simpa using h⟩
+  · exact ⟨(65, 90), by simp, by simpa using h⟩
 
-theorem kittyKV_matches (x n : Nat) (h : 97 ≤ x ∧ x ≤ 122) : kittyKV.Matches (bytes ([x] ++ 61 :: showNat n)) := by
+theorem kittyKV_matches (x n : Nat) (h : (97 ≤ x ∧ x ≤ 122) ∨ (65 ≤ x ∧ x ≤ 90)) :
+    kittyKV.Matches (bytes ([x] ++ 61 :: showNat n)) := by
   have : bytes ([x] ++ 61 :: showNat n) = bytes [x] ++ (bytes [61] ++ (bytes (showNat n) ++ [])) := by
     simp [bytes]
   rw [this]
   exact seq_cons_matches (alnum_letter x h) (seq_cons_matches (lit_matches _)
     (seq_cons_matches (alnum_showNat n) seq_nil_matches))
 
-theorem kittyImage_member (id : Nat) (placement : Option Nat) (error : Option (List Nat))
-    (h : (Msg.kittyImage id placement error).Valid) :
-    kittyImageRe.Matches (bytes (print (.kittyImage id placement error))) := by
-  obtain ⟨_, _, h3⟩ : id ≤ usizeMax ∧ (∀ p, placement = some p → p ≤ usizeMax) ∧
+theorem kittyImage_member (id : Nat) (number placement : Option Nat) (error : Option (List Nat))
+    (h : (Msg.kittyImage id number placement error).Valid) :
+    kittyImageRe.Matches (bytes (print (.kittyImage id number placement error))) := by
+  obtain ⟨_, _, _, h3⟩ : id ≤ usizeMax ∧ (∀ n, number = some n → n ≤ usizeMax) ∧
+      (∀ p, placement = some p → p ≤ usizeMax) ∧
       ∀ msg, error = some msg → TextOk msg ∧ msg ≠ [79, 75] := h
-  have hk : kHead id placement =
-      ([105] ++ 61 :: showNat id) ++ tailJoin 44 ((kTail placement).map fun p => p.1 ++ 61 :: p.2) := by
+  have hk : kHead id number placement =
+      ([105] ++ 61 :: showNat id) ++ tailJoin 44 ((kTail number placement).map fun p => p.1 ++ 61 :: p.2) := by
     unfold kHead kPairs
     rw [List.map_cons, joinWith_cons_tail]
-  have htl : (Re.star (.seq [lit [44], kittyKV])).Matches (bytes (tailJoin 44 ((kTail placement).map fun p => p.1 ++ 61 :: p.2))) := by
+  have htl : (Re.star (.seq [lit [44], kittyKV])).Matches
+      (bytes (tailJoin 44 ((kTail number placement).map fun p => p.1 ++ 61 :: p.2))) := by
     apply tailJoin_matches
     intro c hc
     obtain ⟨p, hp, rfl⟩ := List.mem_map.mp hc
-    cases placement with
-    | none => simp [kTail] at hp
-    | some q =>
-      simp only [kTail, List.mem_cons, List.not_mem_nil, or_false] at hp
-      subst hp
-      exact kittyKV_matches 112 q (by omega)
+    obtain ⟨x, n, rfl, hx⟩ := kTail_mem _ _ _ hp
+    exact kittyKV_matches x n (by omega)
   have hmsg : (Re.star notEsc).Matches (bytes (kMsg error)) := by
     apply star_pred_matches
     intro b hb
@@ -523,16 +545,16 @@ theorem kittyImage_member (id : Nat) (placement : Option Nat) (error : Option (L
         simp only [kMsg, List.mem_cons, List.not_mem_nil, or_false] at hb
         omega
       | some msg =>
-        obtain ⟨⟨_, h27, hlt⟩, _⟩ := h3 msg rfl
+        obtain ⟨_, h27, hlt⟩ := SurfProofs.ProtoUtf8.textOk_facts msg (h3 msg rfl).1
         exact ⟨hlt b hb, fun e => h27 (e ▸ hb)⟩
     refine ⟨hb'.1, ?_⟩
     by_cases hlo : b ≤ 26
     · exact ⟨(0, 26), by simp, by simpa using hlo⟩
     · exact ⟨(28, 255), by simp, by simp; omega⟩
-  have : bytes (print (.kittyImage id placement error)) =
+  have : bytes (print (.kittyImage id number placement error)) =
       bytes [27, 95, 71] ++ (bytes ([105] ++ 61 :: showNat id) ++
-        (bytes (tailJoin 44 ((kTail placement).map fun p => p.1 ++ 61 :: p.2)) ++ (bytes [59] ++ (bytes (kMsg error) ++
-          (bytes [27, 92] ++ []))))) := by
+        (bytes (tailJoin 44 ((kTail number placement).map fun p => p.1 ++ 61 :: p.2)) ++ (bytes [59] ++
+          (bytes (kMsg error) ++ (bytes [27, 92] ++ []))))) := by
     rw [kittyImage_print, hk]; simp [bytes]
   rw [this]
   exact seq_cons_matches (lit_matches _) (seq_cons_matches (kittyKV_matches 105 id (by omega))
